@@ -420,8 +420,73 @@ def check_stats_and_order(run):
 
 # ------------------------------------------------------------------ check
 
+# ------------------------------------------------------------------ R01.10 records built in a loop are fresh per element
+
+def check_fresh_records(run, rule):
+    """A record that is filled member by member and handed to a container / block table inside a loop must not carry
+    members over from the previous element: either it is declared (or wholly re-assigned) inside that loop, or every member
+    the loop assigns is assigned unconditionally.  Otherwise an element without an optional field inherits the field of the
+    element before it (only visible with heterogeneous lists)."""
+    facts = run.facts
+    n = 0
+    for f in sorted(facts.functions.values(), key=lambda f: (f.get("file", ""), f.get("line", 0))):
+        if not f.get("file", "").startswith(facts.repo + "/src/") or "/src/bin/" in f.get("file", "") or f.get("body") is None:
+            continue
+        env = Env(f["body"])
+        decl_of = {}
+        for d in ir.walk(f["body"]):
+            if d.get("k") == "Decl":
+                for v in d.get("vars", []):
+                    if "n" in v:
+                        decl_of["l:%s#%s" % (v["n"], v["id"])] = (d, v)
+        for lp in ir.walk(f["body"]):
+            if lp.get("k") not in ("While", "Do", "For", "RangeFor"):
+                continue
+            inside = set(id(x) for x in ir.walk(lp.get("body") or {}))
+            # stores of a whole local record
+            for c in ir.calls_in(lp.get("body") or {}):
+                nm = callee_name(c) or ""
+                cal = c.get("callee") or {}
+                is_store = nm in ("push_back", "emplace_back", "insert", "emplace") or \
+                    (cal.get("inrepo") and (nm.startswith("add") or nm == "add"))
+                if not is_store:
+                    continue
+                for a in c.get("args", []):
+                    ap = path(a)
+                    if not ap or len(ap) != 1 or not ap[0].startswith("l:") or ap[0] not in decl_of:
+                        continue
+                    d, v = decl_of[ap[0]]
+                    t = (v.get("t") or "").replace("const ", "")
+                    if not t.startswith("CDNS::") or t.endswith("&") or t.endswith("*"):
+                        continue
+                    n += 1
+                    key = "%s:%s->%s" % (short(f["qn"]), v["n"], nm)
+                    if id(d) in inside:
+                        run.ob(rule, key, True, f, d.get("l", 0), "`%s` is a fresh %s for every element" % (v["n"], short(t)), nontrivial=False)
+                        continue
+                    # declared outside the loop: which members does the loop assign, and under which guards?
+                    cond_members = []
+                    reset = False
+                    for st, g, loops in ir.guarded_statements(lp.get("body"), env):
+                        if st.get("k") in ("IfCond", "LoopHead", "SwitchHead"):
+                            continue
+                        for tgt, rhs, node in consumption.assignment_targets([st]):
+                            if tgt == ap:
+                                reset = reset or g == ("T",)
+                            elif tgt and tgt[:1] == ap and g != ("T",):
+                                cond_members.append((tgt[1], g, node))
+                    ok = reset or not cond_members
+                    run.ob(rule, key, ok, f, (cond_members[0][2] if cond_members else c).get("l", 0),
+                           "`%s` lives across iterations but every member the loop sets is set unconditionally" % v["n"] if ok else
+                           "`%s` (declared at line %s, outside the loop) is stored for every element, but its member %s is only assigned when %s: "
+                           "an element without that field inherits the value of the previous element" % (
+                               v["n"], d.get("l"), cond_members[0][0], ir.show_f(cond_members[0][1])))
+    run.floor(rule, 2, "records built and stored inside loops")
+
+
 def check(run):
     facts = run.facts
+    check_fresh_records(run, "R01.10")
     was = {}
     all_rows = []
     for s in BLOCK_STRUCTS:
